@@ -12,6 +12,7 @@
 #include <cstdlib>
 #include <cstring>
 #include <fcntl.h>
+#include <grp.h>
 #include <string>
 #include <sys/mman.h>
 #include <sys/stat.h>
@@ -29,6 +30,9 @@ static void put_hex(const char* key, const std::string& s)
 //   errno:<NAME>     errno assigned directly                    syscall:<NAME>  a really failing system call that sets it
 //   called-before    executable_path() was already called (twice; the results must be identical)
 //   cwd-root / cwd-deleted / umask-0777 / stdin-closed
+// access context of the process relative to its install path (grid G of driver.cpp), entered once before the first judged call:
+//   drop:<uid>                  the program, started with privileges, gives them up: setgroups(0) / setgid(uid) / setuid(uid)
+//   revoke:<octal mode>:<fd,..> the program changes the mode of directories of its own install path (inherited directory fds)
 static const struct { const char* name; int value; } ERRNOS[] = {
     {"0", 0}, {"ENOENT", ENOENT}, {"EINTR", EINTR}, {"ERANGE", ERANGE}, {"ENAMETOOLONG", ENAMETOOLONG},
     {"EINVAL", EINVAL}, {"ENOMEM", ENOMEM}, {"EACCES", EACCES}, {"ELOOP", ELOOP}};
@@ -101,7 +105,26 @@ static void enter_state(const std::string& st)
     }
     if (g_once_done) return;
     g_once_done = true;
-    if (st == "cwd-root") { if (::chdir("/") != 0) state_error("chdir /"); }
+    if (st.compare(0, 5, "drop:") == 0)
+    {
+        const long id = std::atol(st.c_str() + 5);
+        if (id <= 0) state_error("drop: bad uid");
+        if (::setgroups(0, nullptr) != 0 || ::setgid(gid_t(id)) != 0 || ::setuid(uid_t(id)) != 0) state_error("drop privileges");
+        if (::getuid() != uid_t(id) || ::geteuid() != uid_t(id) || ::getegid() != gid_t(id) || ::setuid(0) == 0) state_error("privileges were not dropped");
+    }
+    else if (st.compare(0, 7, "revoke:") == 0)
+    {
+        char* end = nullptr;
+        const long mode = std::strtol(st.c_str() + 7, &end, 8);
+        if (!end || *end != ':') state_error("revoke: bad mode");
+        while (*end == ':' || *end == ',')
+        {
+            const long fd = std::strtol(end + 1, &end, 10);
+            if (::fchmod(int(fd), mode_t(mode)) != 0) state_error("fchmod of directory fd " + std::to_string(fd));
+            ::close(int(fd));
+        }
+    }
+    else if (st == "cwd-root") { if (::chdir("/") != 0) state_error("chdir /"); }
     else if (st == "cwd-deleted")
     {
         const char* scratch = std::getenv("C20_SCRATCH");
@@ -132,6 +155,8 @@ int main()
         int a = vf::take_asan() ? 1 : 0;
         put_hex("exe", e);
         std::printf("asan_exe %d\n", a);
+        // the credentials the call was made with (the driver checks that the access context it asked for was really entered)
+        std::printf("ids %ld %ld %ld %ld %d\n", long(::getuid()), long(::geteuid()), long(::getgid()), long(::getegid()), ::getgroups(0, nullptr));
     }
     {
         enter_state(state);
